@@ -69,12 +69,18 @@ fn write_replay(id: &str, seed: u64, idx: u64, n: usize, v: &serde_json::Value) 
 /// Re-execute a replay file in a fresh process; true if it reproduces a violation.
 pub fn confirm_replay(path: &str) -> Option<bool> {
     let exe = std::env::current_exe().ok()?;
-    let out = std::process::Command::new(exe).arg("replay").arg(path).output().ok()?;
-    match out.status.code() {
-        Some(1) => Some(true),
-        Some(0) => Some(false),
-        _ => None,
+    // up to three fresh processes: they differ in address-space layout, which is the one thing a
+    // replay file cannot pin down; a deterministic violation reproduces at the first attempt
+    let mut last = None;
+    for _ in 0..3 {
+        let out = std::process::Command::new(&exe).arg("replay").arg(path).output().ok()?;
+        match out.status.code() {
+            Some(1) => return Some(true),
+            Some(0) => last = Some(false),
+            _ => return None,
+        }
     }
+    last
 }
 
 pub fn run_check(def: &PropertyDef, tier: &str, seed: u64) -> i32 {
